@@ -31,6 +31,7 @@ summaries    : the expected rendering of a statistics summary depends on the cou
 import io
 import json
 import os
+import re
 from concurrent.futures import ThreadPoolExecutor
 from collections import OrderedDict, defaultdict
 
@@ -55,6 +56,62 @@ DSNAMES = ('dsa', 'dsb', 'dsc')
 TASK_STATUSES = ('DONE', 'WAITING', 'PENDING', 'FAILED', 'SKIPPED')      # DONE first: the success status
 TEST_OUTCOMES = ('SUCCESS', 'FAILURE', 'MISSING')
 MID_T = 2.7    # |t| that fails Student at alpha=0.01 (2.576) but passes both corrections (see build_dataset_result)
+
+# names given to the named things of a case (datasets, metadata samples and keys, tasks, tests, labels and their
+# values) in an insertion order that is not the alphabetical one: case['ord'] = 'runs' (string order differs from the
+# numeric order too), 'codes', 'rev' (the plain names, inserted in descending order)
+ORD_POOLS = {'runs': ('run9', 'run10', 'run2', 'run11', 'run1', 'run30'),
+             'codes': ('tripoli', 'mcnp', 'serpent', 'apollo', 'openmc', 'geant')}
+ORDS = ('runs', 'codes', 'rev')
+
+
+def _names(case, default, tag=''):
+    """The names of len(default) things in insertion order: `default` itself, or what case['ord'] says (tag keeps the
+    names of different sorts of things apart)."""
+    o = case.get('ord')
+    default = list(default)
+    if not o:
+        return default
+    if o == 'rev':
+        return sorted(default, reverse=True)
+    pool = ORD_POOLS[o]
+    return [tag + pool[i % len(pool)] + ('' if i < len(pool) else 'x%d' % (i // len(pool))) for i in range(len(default))]
+
+
+def _shuffled(case, items):
+    """The items in the insertion order case['ord'] asks for: as given, reversed ('rev') or in a fixed shuffle."""
+    o = case.get('ord')
+    if not o:
+        return list(items)
+    if o == 'rev':
+        return list(items)[::-1]
+    import random
+    out = list(items)
+    random.Random(len(out) * 7 + len(o)).shuffle(out)
+    return out
+
+
+def ds_names(case):
+    """[name of the reference, names of the compared datasets ...]"""
+    return _names(case, (REF,) + DSNAMES[:len(case['fail'])])
+
+
+def md_names(case):
+    """Metadata: (sample names in insertion order, [reference sample, compared sample 1, ...], key names in insertion
+    order with key k at index k).  The reference is the sample whose name sorts first (TestMetadata compares with
+    that one); it is not the first one inserted when the names are not in alphabetical order."""
+    nsamp = len(case['fail'][0]) + 1
+    names = _names(case, ['samp%d' % s for s in range(nsamp)])
+    ref = min(names)
+    keys = _names(case, ['key%d' % k for k in range(len(case['fail']))], 'k')
+    return names, [ref] + [n for n in names if n != ref], keys
+
+
+def label_names(case):
+    """Summary by labels: (names of the two selectable labels, values of the first one per row, the two values of the
+    second one)."""
+    sel = ('zone', 'code') if case.get('ord') else ('lab', 'sub')
+    return sel, _names(case, ['row%d' % r for r in range(len(case['fail']))]), _names(case, ['s0', 's1'], 's')
 
 
 # --------------------------------------------------------------------------------------------
@@ -109,7 +166,8 @@ def _datasets(case):
     rerr = 0.5 + np.arange(n, dtype=float) / 8.0
     mk0 = lambda a: a.reshape(shape) if shape else np.float64(a[0])
     lay = _lay_of(case, 0)
-    ref = Dataset(_lay(mk0(rval), lay, True), _lay(mk0(rerr), lay), bins=OrderedDict((k, v.copy()) for k, v in bins.items()), name=REF)
+    names = ds_names(case)
+    ref = Dataset(_lay(mk0(rval), lay, True), _lay(mk0(rerr), lay), bins=OrderedDict((k, v.copy()) for k, v in bins.items()), name=names[0])
     others = []
     for d, row in enumerate(fail):
         val = rval.copy()
@@ -123,7 +181,7 @@ def _datasets(case):
                 val[b] += MID_T * float(np.sqrt(rerr[b] ** 2 + err[b] ** 2))
         lay = _lay_of(case, d + 1)
         others.append(Dataset(_lay(mk0(val), lay, True), _lay(mk0(err), lay), bins=OrderedDict((k, v.copy()) for k, v in bins.items()),
-                              name=DSNAMES[d]))
+                              name=names[d + 1]))
     return ref, others
 
 
@@ -172,7 +230,17 @@ def _item_names(case, statuses):
     out = []
     for st, cnt in zip(statuses, case['fail'][0]):
         out += [(st, _scheme_name(case, 'task' + st.lower(), i, len(out) + i)) for i in range(cnt)]
-    return out
+    return _shuffled(case, _renamed(case, out))
+
+
+def _renamed(case, items):
+    """items = [(x, name, ...)]: with case['ord'] the distinct names are replaced, in order of first appearance, by the
+    names of that order (equal names stay equal, different ones different)."""
+    if not case.get('ord'):
+        return items
+    distinct = list(OrderedDict((it[1], None) for it in items))
+    new = dict(zip(distinct, _names(case, distinct, 't')))
+    return [(it[0], new[it[1]]) + tuple(it[2:]) for it in items]
 
 
 def _labels_by(case):
@@ -190,6 +258,13 @@ def _labels_part(case):
     return part
 
 
+def md_dict(case):
+    """{sample name: {key name: value}} in the insertion orders of the case."""
+    names, samples, keys = md_names(case)
+    val = lambda k, s: 'val%d' % k if s == 0 or not case['fail'][k][s - 1] else 'oth%d%d' % (k, s)
+    return {n: {keys[k]: val(k, samples.index(n)) for k in range(len(keys))} for n in names}
+
+
 def build_result(case):
     """The real test result described by `case`."""
     from valjean.cosette.task import TaskStatus
@@ -201,13 +276,7 @@ def build_result(case):
         return build_dataset_result(case)
     if kind == 'metadata':
         # fail[k][s]: metadata key k of sample s+1 differs from the reference sample
-        nsamp = len(case['fail'][0]) + 1
-        dmd = {'samp%d' % s: {} for s in range(nsamp)}
-        for k, row in enumerate(case['fail']):
-            dmd['samp0']['key%d' % k] = 'val%d' % k
-            for s, bad in enumerate(row):
-                dmd['samp%d' % (s + 1)]['key%d' % k] = 'val%d' % k if not bad else 'oth%d%d' % (k, s + 1)
-        return TestMetadata(dmd, name='tmeta').evaluate()
+        return TestMetadata(md_dict(case), name='tmeta').evaluate()
     if kind == 'stats_tasks':
         names = _item_names(case, TASK_STATUSES)
         tres = [(name, {'status': TaskStatus[st]}) for st, name in names]
@@ -234,15 +303,20 @@ def build_result(case):
         # by labels: row r = the tests carrying all the selected labels with 'lab' = 'row<r>'; case['part'] = tests that
         # carry only the first / only the last selected label (none of them if one label is selected) and are in no row
         by = _labels_by(case)
-        sel = ('lab', 'sub')[:by]
-        groups = [('r%d' % r, cnts, dict(zip(sel, ('row%d' % r, 's%d' % (r % 2))))) for r, cnts in enumerate(case['fail'])]
+        both, rown, subn = label_names(case)
+        sel = both[:by]
+        rown = rown or ['row0']            # (a summary without rows: the tests carrying only part of the labels)
+        groups = [('r%d' % r, cnts, dict(zip(sel, (rown[r], subn[r % 2])))) for r, cnts in enumerate(case['fail'])]
         part = _labels_part(case)
-        groups.append(('p0', part[0], dict({} if by == 1 else {'lab': 'row0'}, oth='x')))
-        groups.append(('p1', part[1], dict({} if by == 1 else {'sub': 's1'}, oth='y')))
+        groups.append(('p0', part[0], dict({} if by == 1 else {both[0]: rown[0]}, oth='x')))
+        groups.append(('p1', part[1], dict({} if by == 1 else {both[1]: subn[1]}, oth='y')))
         items = []
         for prefix, (nok, nko), lab in groups:
+            if case.get('ord'):            # the labels of a test: not in alphabetical order either
+                lab = dict(sorted(lab.items(), reverse=True))
             for ok, cnt in ((True, nok), (False, nko)):
-                items += [(_scheme_name(case, prefix + ('ok' if ok else 'ko'), i, len(items) + i), ok, lab) for i in range(cnt)]
+                items += [(ok, _scheme_name(case, prefix + ('ok' if ok else 'ko'), i, len(items) + i), lab) for i in range(cnt)]
+        items = [(name, ok, lab) for ok, name, lab in _shuffled(case, _renamed(case, items))]
         tres = tasks_of([(name, one(name, ok, lab, var=(k if differ else 0))) for k, (name, ok, lab) in enumerate(items)])
         return TestStatsTestsByLabels(name='tstats', task_results=tres, by_labels=sel).evaluate()
     if kind == 'failed':
@@ -397,16 +471,49 @@ def _install_sphinx_roles():
 def _row_id(case, axis, first):
     """Name the row of a table that is not laid out along bins by its first cell (0 = not a row of the axis)."""
     if axis == 'datasets':
-        hits = [d + 1 for d in range(len(case['fail'])) if DSNAMES[d] in first.split()]
+        hits = [d for d, n in enumerate(ds_names(case)) if d and n in first.split()]
         return hits[0] if len(hits) == 1 else 0
     if axis == 'keys':
-        return int(first[3:]) + 1 if first.startswith('key') and first[3:].isdigit() else 0
+        names = md_names(case)[2]
+        return names.index(first) + 1 if first in names else 0
     if axis == 'statuses':
         names = TASK_STATUSES if case['kind'] == 'stats_tasks' else TEST_OUTCOMES
         return names.index(first) + 1 if first in names else 0
     if axis == 'labels':
-        return int(first[3:]) + 1 if first.startswith('row') and first[3:].isdigit() else 0
+        names = label_names(case)[1]
+        return names.index(first) + 1 if first in names else 0
     return 0
+
+
+def case_item_tokens(case):
+    """Tables with one row per metadata key / label row and columns headed by the name of a thing: per row id the
+    (header, text) pairs the row has to show IF the table has a column with that header -- the metadata value of that
+    key for the sample named by the header, the value of the selected label named by the header."""
+    if case['kind'] == 'metadata':
+        dmd = md_dict(case)
+        keys = md_names(case)[2]
+        return [[dict(h=n, s=str(md[key])) for n, md in dmd.items()] for key in keys]
+    if case['kind'] == 'stats_labels':
+        both, rown, subn = label_names(case)
+        sel = both[:_labels_by(case)]
+        return [[dict(h=h, s=v) for h, v in zip(sel, (rown[r], subn[r % 2]))] for r in range(len(case['fail']))]
+    return []
+
+
+_WORD = re.compile(r'[A-Za-z0-9_]+')
+
+
+def _named_columns(head, names, width):
+    """Per column of a table: 1 + index of the only name of `names` that the header of the column mentions (as a
+    word), 0 if it mentions none or several (or if the header row does not match the rows)."""
+    if len(head) != width:
+        return [0] * width
+    out = []
+    for h in head:
+        words = set(_WORD.findall(h))
+        hits = [k for k, n in enumerate(names) if n in words]
+        out.append(hits[0] + 1 if len(hits) == 1 else 0)
+    return out
 
 
 _ITEM_AXIS = {'bonferroni': 'datasets', 'holm': 'datasets', 'metadata': 'keys', 'stats_tasks': 'statuses',
@@ -428,35 +535,48 @@ def project(case, rendered, tokens=None, parsed=None):
     kind = case['kind']
     corrected = kind in ('bonferroni', 'holm')
     refvals = set(t['vals'][0] for t in tokens) if tokens else set()
-    parts = []
+    item_heads = set(e['h'] for row in case_item_tokens(case) for e in row)
+    parts, named, marks_off = [], 0, []
     for p in raw_parts:
         if p['type'] == 'image':
             continue
         if p['type'] == 'text':
             who = 'nested' if corrected and 'Student' in p['text'] else 'main'
-            parts.append(dict(who=who, type='text', axis='none', mark=bool(p['mark']), rows=[]))
+            parts.append(dict(who=who, type='text', axis='none', mark=bool(p['mark']), rows=[], ds=[], heads=[]))
             continue
         cells = [[c for c, _ in row] for row in p['rows']]
         hls = [any(h for _, h in row) for row in p['rows']]
+        width = len(cells[0]) if cells and all(len(r) == len(cells[0]) for r in cells) else -1
+        ds, heads = [], []
         if kind in DS_KINDS and any(c in refvals for row in cells for c in row):
             axis = 'bins'
             ids = [0] * len(cells)
+            ds = _named_columns(p['head'], ds_names(case), width) if width > 0 else []     # which dataset a column is headed by
+            named += sum(1 for d in ds if d)
         else:
             axis = _ITEM_AXIS.get(kind, 'none')
             ids = [_row_id(case, axis, row[0] if row else '') for row in cells]
             if not any(ids):
                 axis = 'none'
+            elif width > 0 and len(p['head']) == width:
+                heads = [h if h in item_heads else '' for h in p['head']]                   # columns headed by the name of a thing
+                named += sum(1 for h in heads if h)
+                if kind == 'metadata':     # (not in the statement, reported as drift) the marked cells of a row: the samples that differ
+                    samples = md_names(case)[1]
+                    marks_off += ['%s/%s' % (row[0][0], h) for i, row in zip(ids, p['rows']) if i for (_, hl), h in zip(row, heads)
+                                  if h in samples[1:] and bool(hl) != bool(case['fail'][i - 1][samples.index(h) - 1])]
         who = 'nested' if corrected and axis == 'bins' else 'main'
-        rows = [dict(id=i, hl=bool(h), cells=(c if axis == 'bins' else [])) for i, h, c in zip(ids, hls, cells)]
-        parts.append(dict(who=who, type='table', axis=axis, mark=any(hls), rows=rows))
-    return dict(raised=False, invalid=bool(errors), parts=parts, why='; '.join(errors), warnings=warns)
+        keep = lambda c: c if axis == 'bins' else [x if h else '' for x, h in zip(c, heads)]
+        rows = [dict(id=i, hl=bool(h), cells=keep(c)) for i, h, c in zip(ids, hls, cells)]
+        parts.append(dict(who=who, type='table', axis=axis, mark=any(hls), rows=rows, ds=ds, heads=heads))
+    return dict(raised=False, invalid=bool(errors), parts=parts, why='; '.join(errors), warnings=warns, named=named, marks_off=marks_off)
 
 
 def trace_record(cid, case, obs, tokens):
     return dict(id=cid, kind=case['kind'], verb=case['verb'], rep=case['rep'], shape=list(case['shape']),
-                fail=[list(r) for r in case['fail']], tok=tokens or [],
+                fail=[list(r) for r in case['fail']], tok=tokens or [], itok=case_item_tokens(case),
                 raised=obs['raised'], invalid=obs['invalid'],
-                parts=[dict(who=p['who'], type=p['type'], axis=p['axis'], mark=p['mark'], rows=p['rows'])
+                parts=[dict(who=p['who'], type=p['type'], axis=p['axis'], mark=p['mark'], rows=p['rows'], ds=p['ds'], heads=p['heads'])
                        for p in obs['parts']])
 
 
@@ -617,17 +737,89 @@ def case_of_state(st):
     return dict(kind=i['kind'], verb=i['verb'], rep=i['rep'], shape=list(i['shape']), fail=[list(r) for r in i['fail']])
 
 
-def _work(case):
-    """(worker process) one case -> (rendered without live objects, tokens, [(json inputs | None, table text | error)])."""
+def _templates(case):
+    """The TableTemplates the representer builds for the (freshly built) result of the case."""
+    from valjean.javert.representation import Representation
+    from valjean.javert.verbosity import Verbosity
+    from valjean.javert.templates import TableTemplate
+    templates = Representation(representer(case['rep']), Verbosity[case['verb']])(build_result(case))
+    return [t for t in templates if isinstance(t, TableTemplate)]
+
+
+def _sliceable(t):
+    """Slicing rows a:b of the table is what TableOps.tla models: one-dimensional array columns and masks, >= 2 rows."""
+    return (all(isinstance(c, np.ndarray) and c.ndim == 1 and c.size >= 2 for c in t.columns)
+            and all(np.ndim(h) == 1 for h in t.highlights))
+
+
+OPS_JOIN = [dict(op='join', a=None, b=None)]
+OPS_JOIN_SLICE = OPS_JOIN + [dict(op='slice', a=1, b=None)]
+OPS_SLICES = ([dict(op='slice', a=1, b=None)], [dict(op='slice', a=None, b=-1)])
+
+
+def apply_table_ops(t, u, ops):
+    """The operations on real TableTemplates (u: the operand of joins) -> text of the final table."""
+    from valjean.javert.templates import join as tjoin
+    cur = t
+    for op in ops:
+        if op['op'] == 'slice':
+            cur = cur[slice(op['a'], op['b'])]
+        elif op['op'] == 'join':
+            cur = tjoin(cur, u)
+        else:
+            cur = cur.copy()
+    return table_text(cur)
+
+
+def representer_table_ops(tables, others):
+    """What a report writer does with the tables a representer produced: join a table with itself, with the table the
+    same representer produced for another result of the same kind (`others`, same headers), slice it, slice the join
+    -> [(table index, operand 'self' | 'other' | '-', json table, json operand, ops, text | None, error | None)]."""
+    out = []
+    for k, t in enumerate(tables):
+        try:
+            j1 = template_as_table(t)
+        except Exception:  # pylint: disable=broad-except
+            continue                       # (reported by the plain read-back of the table)
+        operands = [('self', t, j1)]
+        if k < len(others) and list(others[k].headers) == list(t.headers):
+            try:
+                operands.append(('other', others[k], template_as_table(others[k])))
+            except Exception:  # pylint: disable=broad-except
+                pass
+        todo = [(who, u, j2, OPS_JOIN) for who, u, j2 in operands]
+        if all(np.ndim(c) <= 1 for c in t.columns):
+            todo += [(who, u, j2, OPS_JOIN_SLICE) for who, u, j2 in operands[-1:]]
+        if _sliceable(t):
+            todo += [('-', t, _EMPTY, ops) for ops in OPS_SLICES]
+        for who, u, j2, ops in todo:
+            try:
+                out.append((k, who, j1, j2, ops, apply_table_ops(t, u, ops), None))
+            except Exception as ex:  # pylint: disable=broad-except
+                out.append((k, who, j1, j2, ops, None, '%s: %s' % (type(ex).__name__, str(ex)[:120])))
+    return out
+
+
+def _work(item):
+    """(worker process) one case (or (case, partner case): also the table operations, see representer_table_ops)
+    -> (rendered without live objects, tokens, [(json inputs | None, table text | error)], [table operations])."""
+    case, partner = item if isinstance(item, tuple) else (item, None)
     tokens = case_tokens(case) if case['kind'] in DS_KINDS else []
     rendered = render(case)
-    tabs = []
-    for t in rendered.pop('tables', ()):
+    tabs, ops = [], []
+    tables = rendered.pop('tables', ())
+    for t in tables:
         try:
             tabs.append((template_as_table(t), table_text(t), None))
         except Exception as ex:  # pylint: disable=broad-except
             tabs.append((None, None, '%s: %s' % (type(ex).__name__, str(ex)[:120])))
-    return rendered, tokens, tabs
+    if partner is not None and tables:
+        try:
+            others = _templates(partner)
+        except Exception:  # pylint: disable=broad-except
+            others = []
+        ops = representer_table_ops(tables, others)
+    return rendered, tokens, tabs, ops
 
 
 def _pmap(fn, items, chunk=32):
@@ -639,18 +831,41 @@ def _pmap(fn, items, chunk=32):
         return pool.map(fn, items, chunksize=chunk)
 
 
-def observe_all(cases):
-    """-> [(obs, tokens, [(json inputs, read-back table)])]: render in parallel, parse every distinct text once."""
-    raw = _pmap(_work, cases)
-    texts = sorted(set(r['text'] for r, _, _ in raw if 'text' in r))
+def observe_all(cases, partners=None):
+    """-> [(obs, tokens, [(json inputs, read-back table)])], [(case index, partner, table index, operand, j1, j2, ops,
+    read-back table)]: render in parallel, parse every distinct text once.  partners: {case index: partner case} for
+    the cases whose tables also undergo operations."""
+    partners = partners or {}
+    raw = _pmap(_work, [(c, partners[i]) if i in partners else c for i, c in enumerate(cases)])
+    texts = sorted(set(r['text'] for r, _, _, _ in raw if 'text' in r))
     parsed = dict(zip(texts, _pmap(parse_parts, texts)))
-    ttexts = sorted(set(t for _, _, tabs in raw for _, t, _ in tabs if t is not None))
+    ttexts = sorted(set(t for _, _, tabs, _ in raw for _, t, _ in tabs if t is not None)
+                    | set(o[5] for _, _, _, ops in raw for o in ops if o[5] is not None))
     tparsed = dict(zip(ttexts, _pmap(rows_of_text, ttexts)))
-    out = []
-    for case, (rendered, tokens, tabs) in zip(cases, raw):
+    failed = lambda err: dict(raised=True, invalid=False, rows=[], why=err)
+    out, ops_out = [], []
+    for i, (case, (rendered, tokens, tabs, ops)) in enumerate(zip(cases, raw)):
         obs = project(case, rendered, tokens, parsed.get(rendered.get('text')))
-        tobs = [(jt, tparsed[t] if t is not None else dict(raised=True, invalid=False, rows=[], why=err)) for jt, t, err in tabs]
+        tobs = [(jt, tparsed[t] if t is not None else failed(err)) for jt, t, err in tabs]
         out.append((obs, tokens, tobs))
+        ops_out += [(i, partners[i], k, who, j1, j2, o, tparsed[t] if t is not None else failed(err)) for k, who, j1, j2, o, t, err in ops]
+    return out, ops_out
+
+
+def ops_partners(cases, stride):
+    """{case index: partner case} for one case in `stride` of every (kind, verbosity, representer, shape, names, number
+    of datasets / samples ...): the partner is the previous case that differs in the failing pattern only, so that the
+    representer gives it a table with the same headers (and, for some kinds, another number of rows)."""
+    last, count, out = {}, defaultdict(int), {}
+    for i, c in enumerate(cases):
+        if c['verb'] == 'SILENT':
+            continue
+        width = len(c['fail']) if c['kind'] in DS_KINDS else len(c['fail'][0]) if c['kind'] == 'metadata' else 0
+        key = json.dumps([{k: v for k, v in c.items() if k not in ('fail', 'nan', 'part')}, width], sort_keys=True)
+        count[key] += 1
+        if count[key] % stride == 0 and key in last:
+            out[i] = last[key]
+        last[key] = c
     return out
 
 
@@ -661,7 +876,7 @@ def render_key(case, clauses, obs):
     return key + _lay_suffix(case)
 
 
-VARIANT_FIELDS = ('lay', 'names', 'fp', 'group', 'by', 'part')     # dimensions a case is varied along (see *_variants)
+VARIANT_FIELDS = ('lay', 'names', 'fp', 'group', 'by', 'part', 'ord')     # dimensions a case is varied along (see *_variants)
 
 
 def _base_of(case):
@@ -690,6 +905,8 @@ def _lay_suffix(case):
             dims.append('two-labels')
         if any(any(p) for p in case.get('part', ())):
             dims.append('partial-labels')
+    if case.get('ord'):
+        dims.append('order-' + case['ord'])
     return ''.join('/' + d for d in dims)
 
 
@@ -726,6 +943,28 @@ def stats_variants(cases, start=0):
     return out
 
 
+def order_variants(cases, stride=1, start=0):
+    """The same results with their named things -- compared datasets, metadata samples and keys, tasks, tests, labels
+    and label values -- called by names whose insertion order is not the alphabetical one (ORDS: 'run9' before 'run10',
+    'tripoli' / 'mcnp' / 'serpent', the plain names in descending order) and, for the summaries, listed in another
+    order.  The expected rendering is the one of the base case with the names replaced: judged by the same clauses.
+    One case in `stride` of every (kind, pattern), the orders in rotation; the offsets move from pattern to pattern so
+    that every (verbosity, representer) meets every order."""
+    out, seen, groups = [], defaultdict(int), {}
+    for c in cases:
+        if _is_variant(c) or c.get('nan') or c['verb'] == 'SILENT' or c['kind'] == 'failed':
+            continue
+        if c['kind'].startswith('stats') and c['kind'] != 'stats_labels' and sum(c['fail'][0]) < 2:
+            continue
+        pat = (c['kind'], json.dumps(c['fail']), json.dumps(c['shape']))
+        g = groups.setdefault(pat, len(groups) + start)
+        n = seen[pat]
+        seen[pat] += 1
+        if (n + g) % stride == 0:
+            out.append(dict(c, ord=ORDS[((n + g) // stride + g // stride) % len(ORDS)]))
+    return out
+
+
 def layout_variants(cases, start=0):
     """The same results with the arrays of the datasets stored differently (Fortran order, transposed view, strided
     slice of a larger buffer, integer dtype; all datasets alike or each its own), in rotation over the cases that can
@@ -745,6 +984,13 @@ def _sig(case):
     return json.dumps(case, sort_keys=True)
 
 
+def _count_by(items, key):
+    out = defaultdict(int)
+    for it in items:
+        out[key(it)] += 1
+    return dict(sorted(out.items()))
+
+
 def _nontrivial(obs):
     return obs['raised'] or any(p['mark'] or p['type'] == 'table' for p in obs['parts'])
 
@@ -752,10 +998,18 @@ def _nontrivial(obs):
 def check_renderings(ctx, cases, wd, n_enum):
     """Render every case on the real code, let TLC judge the projections; returns the representer tables seen.
     cases[:n_enum] were enumerated by TLC, the others are seeded random."""
-    results = observe_all(cases)
+    results, table_ops = observe_all(cases, ops_partners(cases, ctx.pick(8, 3)))
     records, tables = [], {}
+    named, off = defaultdict(lambda: [0, 0]), 0
     for cid, (case, (obs, tokens, tabs)) in enumerate(zip(cases, results), 1):
         records.append(trace_record(cid, case, obs, tokens))
+        axis_tables = sum(1 for p in obs['parts'] if p['type'] == 'table' and p['axis'] in ('bins', 'keys', 'labels'))
+        named[case['kind']][0] += axis_tables
+        named[case['kind']][1] += obs.get('named', 0)
+        if obs.get('marks_off') and off < 3:
+            off += 1
+            ctx.drift('metadata table of %s: the marked cells of a row are not the cells of the samples that differ from the '
+                      'reference sample (%s)' % (json.dumps(case), ', '.join(obs['marks_off'][:4])))
         if _nontrivial(obs):
             ctx.distinct((case['kind'], tuple(case['shape']), tuple(map(tuple, case['fail'])), case['verb'], case['rep'],
                           json.dumps([case.get(k) for k in VARIANT_FIELDS])))
@@ -764,6 +1018,11 @@ def check_renderings(ctx, cases, wd, n_enum):
             tables.setdefault(sig, (case, k, jt, tobs))
         for w in obs.get('warnings', ())[:1]:
             ctx.drift('docutils warning in the rendering of %s/%s/%s: %s' % (case['kind'], case['verb'], case['rep'], w))
+    for kind, (ntab, ncol) in sorted(named.items()):
+        if ntab and not ncol:
+            ctx.drift('no column of the %d per-bin / per-key / per-label tables of kind %s is headed by the name of a dataset / sample / '
+                      'label: the header <-> column clauses of Render.tla were not exercised' % (ntab, kind))
+    ctx.cov.setdefault('named_columns', {}).update({k: dict(tables=v[0], columns_headed_by_a_name=v[1]) for k, v in sorted(named.items()) if v[0]})
     step = 15000
     chunks = [(lo, records[lo:lo + step]) for lo in range(0, len(records), step)]
     with ThreadPoolExecutor(max(1, min(4, len(chunks)))) as pool:
@@ -785,7 +1044,40 @@ def check_renderings(ctx, cases, wd, n_enum):
         if 0 <= k < len(cases):
             ctx.sample(dict(source='TLC-enumerated input' if k < n_enum else 'seeded random input', case=cases[k],
                             parts=[dict(p, rows=len(p['rows'])) for p in results[k][0]['parts']]))
-    return tables, results
+    return tables, results, table_ops
+
+
+def check_representer_table_ops(ctx, cases, table_ops, wd, tag):
+    """The tables the representers produced, joined / sliced like a report writer may do: the operations are executed on
+    the real TableTemplates, the final table is read back from its text and TLC compares it with what TableOps.tla
+    computes from the formatted inputs."""
+    recs, meta, seen = [], [], set()
+    for i, partner, k, who, j1, j2, ops, tobs in table_ops:
+        sig = json.dumps([j1, j2, ops, tobs['raised'], tobs['invalid'], tobs['rows']], sort_keys=True)
+        if sig in seen:
+            continue
+        seen.add(sig)
+        recs.append(table_record(len(recs) + 1, j1, j2, ops, tobs))
+        meta.append((cases[i], partner, k, who, j1, j2, ops, tobs))
+    if not recs:
+        return
+    res, bad = judge_tables(recs, wd, tag)
+    ctx.tlc(res, 'TableOpsTrace/' + tag)
+    opname = lambda ops: '+'.join(o['op'] for o in ops)
+    failing = set((json.dumps(meta[cid - 1][0], sort_keys=True), meta[cid - 1][2], meta[cid - 1][3], opname(meta[cid - 1][6])) for cid in bad)
+    for cid, why in sorted(bad.items()):
+        case, partner, k, who, j1, j2, ops, tobs = meta[cid - 1]
+        if len(ops) > 1 and (json.dumps(case, sort_keys=True), k, who, opname(ops[:-1])) in failing:
+            continue                       # blame the shortest failing prefix only
+        ctx.violation('C12/table-ops/%s/%s%s/%s%s' % (case['kind'], opname(ops), '' if who == '-' else '-' + who, why, _lay_suffix(case)),
+                      'table %d of the rendering, after %s (operand: %s), does not read back as what TableOps.tla computes from the '
+                      'formatted inputs (%s %s): table %s, operand %s, read back %s'
+                      % (k, ops, who, why, tobs.get('why', ''), json.dumps(j1)[:300], json.dumps(j2)[:200], json.dumps(tobs['rows'])[:300]),
+                      dict(type='tableops-of', case=case, partner=partner, table=k, operand=who, ops=ops), module=MOD)
+    ctx.count(evaluations=len(recs), traces=len(recs))
+    ctx.cov['representer_table_ops'] = dict(cases=len(set(i for i, *_ in table_ops)), distinct_operation_traces=len(recs),
+                                            by_operations=_count_by(meta, lambda m: opname(m[6]) + ('' if m[3] == '-' else '-' + m[3])),
+                                            by_kind=_count_by(meta, lambda m: m[0]['kind']))
 
 
 def check_representer_tables(ctx, tables, wd, tag):
@@ -1078,13 +1370,18 @@ def run_c12(ctx):
     # the statistics summaries with their items named / grouped / labelled differently (same counts), in rotation
     svars = stats_variants(order)
     cases += svars
+    # the same results with their datasets / samples / keys / tasks / tests / labels named and inserted in an order
+    # that is not the alphabetical one
+    ovars = order_variants(order, stride=ctx.pick(4, 2))
+    cases += ovars
     n_enum = len(cases)
     # 3. code -> spec: random results outside the enumerated domain (rendered and judged in the same batches)
     rnd = [c for c in random_render_cases(ctx.rng, ctx.pick(1000, 20000)) if json.dumps(c, sort_keys=True) not in seen]
     rnd_lays = layout_variants(rnd, start=1)
     rnd_svars = stats_variants(rnd, start=1)
-    cases += rnd + rnd_lays + rnd_svars
-    tables, results = check_renderings(ctx, cases, wd, n_enum)
+    rnd_ovars = order_variants(rnd, stride=2, start=1)
+    cases += rnd + rnd_lays + rnd_svars + rnd_ovars
+    tables, results, table_ops = check_renderings(ctx, cases, wd, n_enum)
     dispatch = {}
     for case, (obs, _, _) in zip(cases[:n_enum], results):
         verdict = 'fail' if any(any(x == 1 for x in r) for r in case['fail']) and case['kind'] in DS_KINDS else '-'
@@ -1095,12 +1392,15 @@ def run_c12(ctx):
     ctx.cov['inputs'] = dict(enumerated_by_tlc=n_enum, seeded_random=len(cases) - n_enum,
                              of_which_layout_variants=[len(lays), len(rnd_lays)],
                              of_which_statistics_variants=[len(svars), len(rnd_svars)],
+                             of_which_order_variants=[len(ovars), len(rnd_ovars)],
+                             order_variants_by_kind_verbosity_order=_count_by(ovars + rnd_ovars, lambda c: '%s/%s/%s' % (c['kind'], c['verb'], c['ord'])),
                              statistics_variants_by_dimension={d: sum(1 for c in cases if c['kind'].startswith('stats') and d in _lay_suffix(c).split('/'))
                                                                for d in ('repeated-names', 'same-name-other-test', 'one-task', 'zero-rows', 'two-labels', 'partial-labels')},
                              layout_variants_by_layout={l: sum(1 for c in lays + rnd_lays if c['lay'] == l)
                                                         for l in sorted(set(LAYS_0D + LAYS_1D + LAYS_ND))})
     _tick(ctx, 'renderings (enumerated + random)')
     check_representer_tables(ctx, tables, wd, 'representer-tables')
+    check_representer_table_ops(ctx, cases, table_ops, wd, 'representer-table-ops')
     _tick(ctx, 'representer tables')
 
     # 4. table operations: model, replay of every dumped state, witnesses
@@ -1150,6 +1450,19 @@ def replay_case(rep):
         jt, tobs = template_as_table(t), read_table(t)
         _, bad = judge_tables([table_record(1, jt, _EMPTY, [], tobs)], wd, 'r')
         return (1 not in bad), 'inputs %s read back %s -> %s' % (json.dumps(jt)[:300], json.dumps(tobs['rows'])[:300], bad.get(1, 'ok'))
+    if kind == 'tableops-of':
+        tables = _templates(rep['case'])
+        if rep['table'] >= len(tables):
+            return True, 'the rendering no longer has table %d' % rep['table']
+        hits = [o for o in representer_table_ops(tables, _templates(rep['partner']) if rep['operand'] == 'other' else [])
+                if o[0] == rep['table'] and o[1] == rep['operand'] and o[4] == rep['ops']]
+        if not hits:
+            return True, 'the operations %s no longer apply to table %d' % (rep['ops'], rep['table'])
+        _, _, j1, j2, ops, text, err = hits[0]
+        tobs = rows_of_text(text) if text is not None else dict(raised=True, invalid=False, rows=[], why=err)
+        _, bad = judge_tables([table_record(1, j1, j2, ops, tobs)], wd, 'r')
+        return (1 not in bad), 'table %s after %s with operand %s reads back %s -> %s %s' % (
+            json.dumps(j1)[:300], ops, json.dumps(j2)[:200], json.dumps(tobs['rows'])[:300], bad.get(1, 'ok'), tobs.get('why', ''))
     if kind == 'tableops':
         case = rep['case']
         j1, j2, obs = run_table_ops(case)
